@@ -43,7 +43,7 @@ def cases(draw):
         if draw(st.integers(0, 3)) == 0:
             im["drift"] = draw(st.integers(0, 10**6))  # slowly varying columns
         if draw(st.integers(0, 3)) == 0:
-            im["cross_midnight"] = True
+            im["cross_midnight"] = draw(st.sampled_from([True, True, "overflow"]))
         if draw(st.integers(0, 4)) == 0:
             # line numbers are labels, not positions: they may start again or be unset (0)
             im["line_numbers"] = draw(st.sampled_from(["restart", "zeros"]))
